@@ -734,6 +734,8 @@ def run(ctx):
     n = ctx.n(360, 4000)
     progs = programs(ctx, n)
     failing, mism = [], []
+    import unitcorr
+    unitcorr.choice_scalar_check(ctx, ctx.n(300, 3000), failing, "C08")      # every reported column is read through Polynomial.choice_scalar
     counts = collections.Counter()
     tags = collections.Counter()
     coq_cases, samples = [], []
@@ -834,6 +836,9 @@ def loop_depth(s):
 def replay(ctx, data):
     vlib.import_pymwp()
     inp = data.get("input", data)
+    if "src" not in inp:
+        import unitcorr
+        return unitcorr.replay_unit(inp, "C08")
     want = data.get("sig")
     _, failing, _ = failures_of(inp["src"], bool(inp.get("strict", (inp.get("opts") or {}).get("strict", False))))
     if want:
